@@ -368,7 +368,42 @@ fn run_job(ctx: &mut Ctx, job: &Job) -> Vec<(String, String, Value)> {
     bad
 }
 
+/// 150 directories with 64 file descriptors: for -size, -links, -uid and -mmin exactly one of N, +N, -N
+/// selects each of the 451 entries (the binary, real clock; N far from every measured value for -mmin).
+fn low_descriptor_slice(ctx: &mut Ctx) {
+    use crate::props::lowfd;
+    let _ = lowfd::build(ctx);
+    let total = 1 + 3 * lowfd::NDIRS;
+    for (prim, n) in [("-size", "1c"), ("-size", "0"), ("-links", "150"), ("-links", "1"), ("-uid", "0"), ("-gid", "7"), ("-mmin", "100000"), ("-mtime", "0"), ("-inum", "1")] {
+        let mut counts = vec![];
+        let mut bad = None;
+        for form in ["", "+", "-"] {
+            let op = format!("{form}{n}");
+            let args = ["lf", prim, op.as_str()];
+            let o = lowfd::find(ctx, &args, 64, vec![]);
+            if o.died() || o.code != Some(0) {
+                bad = Some(format!("find {:?}: status {:?}; stderr {:?}", args, o.code, String::from_utf8_lossy(&o.err).lines().take(2).collect::<Vec<_>>()));
+            }
+            counts.push(lowfd::lines(&o.out).len());
+        }
+        ctx.rep.evaluations += 3;
+        ctx.rep.nontrivial += 3;
+        ctx.rep.count("low_descriptor_limit_cases", 1);
+        if bad.is_some() || counts.iter().sum::<usize>() != total {
+            ctx.rep.violation(
+                &format!("C14 {prim} over 150 directories with 64 file descriptors: the three forms do not partition the entries"),
+                format!("find lf {prim} N/+N/-N with N={n} under RLIMIT_NOFILE=64: {:?} entries selected (sum must be {total}); {}", counts, bad.unwrap_or_default()),
+                json!({"prop":"C14","low_descriptor":true}),
+            );
+        }
+    }
+    lowfd::remove(ctx);
+}
+
 fn run(ctx: &mut Ctx) {
+    if ctx.shard == 3 % ctx.nshards {
+        low_descriptor_slice(ctx);
+    }
     if let Err(e) = build(ctx) {
         ctx.rep.machinery(format!("sandbox: {e}"));
         return;
@@ -396,6 +431,10 @@ fn run(ctx: &mut Ctx) {
 }
 
 fn replay(case: &Value, ctx: &mut Ctx) -> Option<String> {
+    if case["low_descriptor"] == true {
+        low_descriptor_slice(ctx);
+        return ctx.rep.violations.keys().next().cloned();
+    }
     ctx.tier = Tier::Thorough;
     build(ctx).ok()?;
     let s = |k: &str| case[k].as_str().unwrap_or("").to_string();
